@@ -442,8 +442,14 @@ func Run(id, tier string) int {
 	}
 	rs := &runState{chk: chk, tier: tier, violKeys: map[string]map[string]bool{}, agg: map[string]*shardOut{}, deadline: start.Add(budget)}
 	spaces := chk.Spaces(tier)
+	os.RemoveAll(filepath.Join(ReplayDir(), id))
 	var stats []spaceStat
+	only := os.Getenv("VERIF_SPACE") // development aid: run matching spaces only
 	for _, sp := range spaces {
+		if only != "" && !strings.Contains(sp.Name, only) {
+			rs.capped = true
+			continue
+		}
 		t0 := time.Now()
 		if sp.InProc {
 			o := newShardOut()
